@@ -228,3 +228,162 @@ Section Reading.
     - cbn [andb]. rewrite andb_false_r. reflexivity.
   Qed.
 End Reading.
+
+(* ---------- the same facts when the tree is written into a graph that already has content ---------- *)
+Lemma find_node_app_old g N E x : In x (gids g) -> find_node (gapp g N E) x = find_node g x.
+Proof.
+  intro Hx. unfold find_node, gapp. cbn [g_nodes]. unfold gids in Hx.
+  induction (g_nodes g) as [|n l IH]; simpl in *; [contradiction|].
+  destruct (str_eqb (g_id n) x) eqn:E0; [reflexivity|].
+  apply IH. destruct Hx as [Hx|Hx]; [|exact Hx]. subst. rewrite str_eqb_refl in E0. discriminate E0.
+Qed.
+
+Section Grown.
+  Variables (g0 : graph) (parent : option tree) (t : tree).
+  Hypothesis Hg0 : good g0.
+  Hypothesis NDall : NoDup (gids g0 ++ map id_of (subtrees t)).
+  Hypothesis Hpar : forall pt, parent = Some pt -> In (id_of pt) (gids g0).
+  Let G' := grown g0 parent t.
+
+  Lemma NDt : NoDup (map id_of (subtrees t)).
+  Proof. apply (NoDup_app_right _ _ NDall). Qed.
+
+  Lemma new_not_old x : In x (map id_of (subtrees t)) -> ~ In x (gids g0).
+  Proof. intros Hn Ho. exact (NoDup_app_disj _ _ x NDall Ho Hn). Qed.
+
+  Lemma find_in_grown u : In u (subtrees t) -> find_node G' (id_of u) = Some (rec_of u).
+  Proof.
+    intro Hu. change (id_of u) with (g_id (rec_of u)). apply find_node_in.
+    - unfold G'. rewrite gids_grown. exact NDall.
+    - unfold G', grown, gapp. cbn [g_nodes]. apply in_or_app. right. apply in_map. exact Hu.
+  Qed.
+
+  Definition edge_hits (x : str) (rel : string) (y : str) (e : gedge) : bool :=
+    let '(a, r, b) := e in
+    String.eqb r rel && ((str_eqb a x && str_eqb b y) || (str_eqb b x && str_eqb a y)).
+
+  Lemma adjacent_is_existsb g x rel y : adjacent_via g x rel y = existsb (edge_hits x rel y) (g_edges g).
+  Proof. unfold adjacent_via, edge_hits. reflexivity. Qed.
+
+  Lemma old_edges_miss x rel y : ~ In x (gids g0) -> existsb (edge_hits x rel y) (g_edges g0) = false.
+  Proof.
+    intro Hx. destruct Hg0 as [_ EC].
+    destruct (existsb (edge_hits x rel y) (g_edges g0)) eqn:E; [|reflexivity].
+    apply existsb_exists in E as [[[a r] b] [He Hh]]. destruct (EC a r b He) as [Ha Hb].
+    unfold edge_hits in Hh. apply andb_true_iff in Hh as [_ Hh]. apply orb_true_iff in Hh as [Hh|Hh];
+      apply andb_true_iff in Hh as [H1 _]; apply str_eqb_eq in H1; subst; contradiction.
+  Qed.
+
+  Lemma old_edges_miss_r x rel y : ~ In y (gids g0) -> existsb (edge_hits x rel y) (g_edges g0) = false.
+  Proof.
+    intro Hy. destruct Hg0 as [_ EC].
+    destruct (existsb (edge_hits x rel y) (g_edges g0)) eqn:E; [|reflexivity].
+    apply existsb_exists in E as [[[a r] b] [He Hh]]. destruct (EC a r b He) as [Ha Hb].
+    unfold edge_hits in Hh. apply andb_true_iff in Hh as [_ Hh]. apply orb_true_iff in Hh as [Hh|Hh];
+      apply andb_true_iff in Hh as [_ H2]; apply str_eqb_eq in H2; subst; contradiction.
+  Qed.
+
+  Lemma tree_edges_miss x rel y : ~ In x (map id_of (subtrees t)) -> existsb (edge_hits x rel y) (edges_of t) = false.
+  Proof.
+    intro Hx. destruct (existsb (edge_hits x rel y) (edges_of t)) eqn:E; [|reflexivity].
+    apply existsb_exists in E as [[[a r] b] [He Hh]]. destruct (edges_of_ids t a r b He) as [Ha Hb].
+    unfold edge_hits in Hh. apply andb_true_iff in Hh as [_ Hh]. apply orb_true_iff in Hh as [Hh|Hh];
+      apply andb_true_iff in Hh as [H1 _]; apply str_eqb_eq in H1; subst; contradiction.
+  Qed.
+
+  Lemma tree_edges_miss_r x rel y : ~ In y (map id_of (subtrees t)) -> existsb (edge_hits x rel y) (edges_of t) = false.
+  Proof.
+    intro Hy. destruct (existsb (edge_hits x rel y) (edges_of t)) eqn:E; [|reflexivity].
+    apply existsb_exists in E as [[[a r] b] [He Hh]]. destruct (edges_of_ids t a r b He) as [Ha Hb].
+    unfold edge_hits in Hh. apply andb_true_iff in Hh as [_ Hh]. apply orb_true_iff in Hh as [Hh|Hh];
+      apply andb_true_iff in Hh as [_ H2]; apply str_eqb_eq in H2; subst; contradiction.
+  Qed.
+
+  Lemma adjacent_grown x rel y :
+    adjacent_via G' x rel y =
+    existsb (edge_hits x rel y) (g_edges g0) || existsb (edge_hits x rel y) (plink parent t)
+    || existsb (edge_hits x rel y) (edges_of t).
+  Proof.
+    rewrite adjacent_is_existsb. unfold G', grown, gapp. cbn [g_edges]. rewrite !existsb_app. apply orb_assoc.
+  Qed.
+
+  (* inside the new tree, adjacency is that of the tree alone *)
+  Lemma adjacent_inside u v rel : In u (subtrees t) -> In v (subtrees t) ->
+    adjacent_via G' (id_of u) rel (id_of v) = adjacent_via (graph_of t) (id_of u) rel (id_of v).
+  Proof.
+    intros Hu Hv. rewrite adjacent_grown.
+    rewrite old_edges_miss by (apply new_not_old; apply in_map; exact Hu).
+    assert (Hpl : existsb (edge_hits (id_of u) rel (id_of v)) (plink parent t) = false).
+    { destruct parent as [pt|] eqn:Ep; [|reflexivity]. simpl. rewrite orb_false_r. unfold link_to.
+      assert (Hold := Hpar pt eq_refl).
+      destruct (String.eqb (relk (t_kind t)) rel); [|reflexivity]. simpl.
+      rewrite (str_eqb_neq (id_of pt) (id_of u)) by (intro E; apply (new_not_old (id_of u)); [apply in_map; exact Hu | rewrite <- E; exact Hold]).
+      rewrite (str_eqb_neq (id_of pt) (id_of v)) by (intro E; apply (new_not_old (id_of v)); [apply in_map; exact Hv | rewrite <- E; exact Hold]).
+      rewrite andb_false_r. reflexivity. }
+    rewrite Hpl. reflexivity.
+  Qed.
+
+  (* the neighbours of a sliver of the new tree: those it has in the tree alone, provided the node the
+     tree hangs under is not of the requested class via the requested relation *)
+  Lemma neighbours_grown u rel L : In u (subtrees t) ->
+    (forall pt n, parent = Some pt -> find_node g0 (id_of pt) = Some n -> u = t ->
+                  relk (t_kind t) = rel -> g_label n <> L) ->
+    get_first_neighbor G' (id_of u) rel L = get_first_neighbor (graph_of t) (id_of u) rel L.
+  Proof.
+    intros Hu Hroot. unfold get_first_neighbor. rewrite (find_in_grown u Hu).
+    rewrite (find_in_G t NDt u Hu). f_equal. f_equal.
+    change (g_nodes G') with (g_nodes g0 ++ map rec_of (subtrees t)). rewrite filter_app.
+    assert (Hold : filter (fun n => String.eqb (g_label n) L && adjacent_via G' (id_of u) rel (g_id n)) (g_nodes g0) = []).
+    { apply filter_none. intros n Hn.
+      destruct (String.eqb (g_label n) L) eqn:EL; [|reflexivity]. cbn [andb].
+      assert (Hnold : In (g_id n) (gids g0)) by (apply in_map; exact Hn).
+      rewrite adjacent_grown.
+      rewrite old_edges_miss by (apply new_not_old; apply in_map; exact Hu).
+      rewrite tree_edges_miss_r by (intro Hc; exact (new_not_old _ Hc Hnold)).
+      rewrite orb_false_r. cbn [orb].
+      destruct parent as [pt|] eqn:Ep; [|reflexivity]. simpl. rewrite orb_false_r. unfold link_to.
+      destruct (String.eqb (relk (t_kind t)) rel) eqn:Er; [|reflexivity]. cbn [andb].
+      assert (Hpo := Hpar pt eq_refl).
+      rewrite (str_eqb_neq (id_of pt) (id_of u)) by (intro E; apply (new_not_old (id_of u)); [apply in_map; exact Hu | rewrite <- E; exact Hpo]).
+      cbn [andb orb].
+      destruct (str_eqb (id_of t) (id_of u)) eqn:Etu; [|reflexivity]. cbn [andb].
+      destruct (str_eqb (id_of pt) (g_id n)) eqn:Epn; [|reflexivity].
+      exfalso. apply str_eqb_eq in Etu. apply str_eqb_eq in Epn. apply String.eqb_eq in Er. apply String.eqb_eq in EL.
+      assert (Hroot_t : In t (subtrees t)) by (rewrite subtrees_eq; left; reflexivity).
+      assert (Eu : u = t) by (apply (id_inj _ u t NDt Hu Hroot_t); symmetry; exact Etu).
+      assert (Hfn : find_node g0 (id_of pt) = Some n).
+      { rewrite Epn. apply find_node_in; [apply Hg0 | exact Hn]. }
+      exact (Hroot pt n eq_refl Hfn Eu Er EL). }
+    rewrite Hold. cbn [app].
+    unfold graph_of. cbn [g_nodes].
+    apply filter_ext_in. intros n Hn. apply in_map_iff in Hn as [v [E Hv]]. subst n.
+    cbn [g_id rec_of g_label]. rewrite (adjacent_inside u v rel Hu Hv). reflexivity.
+  Qed.
+
+  (* FRAME: nothing that was in the graph changes, except that the node the tree hangs under gains the
+     tree's root as a neighbour *)
+  Lemma frame_find x : In x (gids g0) -> find_node G' x = find_node g0 x.
+  Proof. intro Hx. unfold G', grown. apply find_node_app_old. exact Hx. Qed.
+
+  Lemma frame_neighbours x rel L : In x (gids g0) ->
+    (forall pt, parent = Some pt -> id_of pt <> x) ->
+    get_first_neighbor G' x rel L = get_first_neighbor g0 x rel L.
+  Proof.
+    intros Hx Hnp. unfold get_first_neighbor. rewrite (frame_find x Hx).
+    destruct (find_node g0 x) as [nx|]; [|reflexivity]. f_equal. f_equal.
+    change (g_nodes G') with (g_nodes g0 ++ map rec_of (subtrees t)). rewrite filter_app.
+    assert (Hxn : ~ In x (map id_of (subtrees t))) by (intro Hc; exact (new_not_old x Hc Hx)).
+    assert (Hpl : forall y, existsb (edge_hits x rel y) (plink parent t) = false).
+    { intro y. destruct parent as [pt|] eqn:Ep; [|reflexivity]. simpl. rewrite orb_false_r. unfold link_to.
+      rewrite (str_eqb_neq (id_of pt) x) by (apply Hnp; reflexivity).
+      rewrite (str_eqb_neq (id_of t) x) by (intro E; apply Hxn; rewrite <- E; rewrite subtrees_eq; left; reflexivity).
+      rewrite !andb_false_l. rewrite andb_false_r. reflexivity. }
+    assert (Hnew : filter (fun n => String.eqb (g_label n) L && adjacent_via G' x rel (g_id n)) (map rec_of (subtrees t)) = []).
+    { apply filter_none. intros n Hn. apply in_map_iff in Hn as [v [E Hv]]. subst n. cbn [g_id rec_of g_label].
+      rewrite adjacent_grown. rewrite old_edges_miss_r by (apply new_not_old; apply in_map; exact Hv).
+      rewrite Hpl. rewrite tree_edges_miss by exact Hxn. rewrite andb_false_r. reflexivity. }
+    rewrite Hnew. rewrite app_nil_r.
+    apply filter_ext_in. intros n Hn. rewrite adjacent_grown. rewrite Hpl.
+    rewrite tree_edges_miss by exact Hxn. rewrite !orb_false_r. rewrite <- adjacent_is_existsb. reflexivity.
+  Qed.
+End Grown.
